@@ -1345,3 +1345,18 @@ func init() {
 		}
 	})
 }
+
+func init() {
+	// C17(b): the counters after concurrent use (puts, deletes, batches and a merge racing each other)
+	withConcArm("C17", 0.15, func(c *Case, rng *vrt.Rand, tier string) {
+		c.Cfg = concConfig(rng)
+		var tag uint32
+		keys := genKeys(rng, rng.Range(1, 4))
+		c.Setup = genSetup(rng, keys, &tag)
+		w := map[string]int{"put": 6, "del": 3, "get": 1, "batch": 2, "yield": 1}
+		c.Clients = ccPrograms(rng, keys, &tag, rng.Range(2, 4), w, 6)
+		if rng.Chance(0.25) {
+			c.Clients = append(c.Clients, []Op{{K: "merge"}})
+		}
+	})
+}
